@@ -5,6 +5,7 @@
    Known finding F11 (SimpleService.stop_announce) is outside the model. *)
 From PS Require Import Lib.Base Generated.Consts Model.SdTypes Model.Config Model.Session Model.StackTypes Model.Stack
   Model.StackIO Proofs.StackOpsProofs Proofs.WorldInv Proofs.WorldTime Proofs.WorldDone.
+From PS Require Import Model.Skel Generated.LogicGen Proofs.GenSkel.
 
 Theorem C10_initial_delay_in_window : forall t w tk inst,
   get_task t w = Some tk -> tk_done tk = false -> tk_must_cancel tk = false -> tk_kind tk = TOffer inst -> tk_pc tk = 0 ->
@@ -65,6 +66,22 @@ Proof.
   replace w' with (fst (run fuel events t_end rv w)) by (rewrite Hrun; reflexivity). apply G_run. exact Hg.
 Qed.
 
+(* announcing and withdrawing an instance is the control flow translated from the source text of sd.py on every run: the
+   instance is started only when the announcer runs (an exception from start() leaves it unlisted), then listed; withdrawing
+   removes it from the list (ValueError when it is not there - the helper of finding F11 runs into exactly this) and stops
+   it only when asked to and the announcer runs *)
+Theorem C10_announce_service_is_the_translated_source : forall i w,
+  announce_service i w = fst (fold_left (run_aact i) (gen_announce_service (ann_started w)) (w, true)).
+Proof. exact announce_service_is_the_translated_source. Qed.
+Theorem C10_stop_announce_service_is_the_translated_source : forall i send_stop w,
+  stop_announce_service i send_stop w
+  = fst (fold_left (run_aact i)
+           (gen_stop_announce_service (match remove_first N.eqb i (announcing w) with Some _ => true | None => false end) send_stop (ann_started w))
+           (w, true)).
+Proof. exact stop_announce_service_is_the_translated_source. Qed.
+
+Print Assumptions C10_announce_service_is_the_translated_source.
+Print Assumptions C10_stop_announce_service_is_the_translated_source.
 Print Assumptions C10_completed_run_leaves_no_overdue_wakeup.
 Print Assumptions C10_initial_delay_in_window.
 Print Assumptions C10_sleep_arms_exactly_the_delay.
